@@ -202,6 +202,21 @@ impl Session {
                 let r = self.xs().rnext();
                 res_string(self.xs(), &r)
             }
+            "stepall" => {
+                // next() until the machine stops or a step fails
+                let mut r = Ok(());
+                let mut guard = 0usize;
+                while self.xs().is_running() && guard < 1_000_000 {
+                    r = self.xs().next();
+                    guard += 1;
+                    if r.is_err() {
+                        break;
+                    }
+                }
+                res_string(self.xs(), &r)
+            }
+            "walk" => self.walk(t[1].parse().unwrap(), t[2].parse().unwrap(), t[3].parse().unwrap()),
+            "stepcheck" => self.stepcheck(t[1].parse().unwrap()),
             "rec" => {
                 self.xs().set_recording_enabled(t[1] == "on");
                 String::from("ok")
@@ -308,6 +323,120 @@ impl Session {
             }
             other => format!("UNKNOWN-STEP {}", other),
         }
+    }
+}
+
+pub fn fnv(h: &mut u64, s: &str) {
+    for b in s.as_bytes() {
+        *h ^= *b as u64;
+        *h = h.wrapping_mul(0x100000001b3);
+    }
+}
+
+/// strip the instruction meter (it is not part of the reversible state)
+pub fn dump_nometer(d: &str) -> String {
+    match (d.find(" ; meter "), d.find(" ; limits ")) {
+        (Some(a), Some(b)) => format!("{}{}", &d[..a], &d[b..]),
+        _ => d.to_string(),
+    }
+}
+
+/// deterministic generator shared with the model driver
+pub struct Lcg(pub u64);
+impl Lcg {
+    pub fn next(&mut self, n: u64) -> u64 {
+        self.0 = self.0.wrapping_mul(6364136223846793005).wrapping_add(1442695040888963407);
+        ((self.0 >> 33) % n) as u64
+    }
+}
+
+impl Session {
+    /// C02: forward steps (at most `maxfwd`), then `moves` random next/rnext moves; after every
+    /// move the full dump must equal the one recorded at that depth.
+    fn walk(&mut self, seed: u64, maxfwd: usize, moves: usize) -> String {
+        let mut rec: Vec<String> = vec![dump_nometer(&self.xs().verif_dump(true))];
+        let mut h: u64 = 0xcbf29ce484222325;
+        let mut failed = String::from("-");
+        while self.xs().is_running() && rec.len() <= maxfwd {
+            let r = self.xs().next();
+            if let Err(_) = r {
+                failed = res_string(self.xs(), &r);
+                break;
+            }
+            let d = dump_nometer(&self.xs().verif_dump(true));
+            fnv(&mut h, &d);
+            rec.push(d);
+        }
+        let n = rec.len() - 1;
+        let mut pos = n;
+        if failed != "-" {
+            // a failed step: one rnext must land on the state before it or one step earlier
+            let r = self.xs().rnext();
+            let d = dump_nometer(&self.xs().verif_dump(true));
+            if r.is_err() {
+                return format!("walk:MISMATCH rnext-after-failure {}", res_string(self.xs(), &r));
+            }
+            if d == rec[n] {
+                pos = n;
+            } else if n > 0 && d == rec[n - 1] {
+                pos = n - 1;
+            } else {
+                return format!("walk:MISMATCH after-failed-step n={} got={}", n, d);
+            }
+            fnv(&mut h, &d);
+        }
+        let mut g = Lcg(seed);
+        for k in 0..moves {
+            let back = if pos == 0 { false } else if pos == n { true } else { g.next(3) != 0 };
+            if n == 0 {
+                break;
+            }
+            if back {
+                let r = self.xs().rnext();
+                if r.is_err() {
+                    return format!("walk:MISMATCH move={} rnext {}", k, res_string(self.xs(), &r));
+                }
+                pos -= 1;
+            } else {
+                let r = self.xs().next();
+                if r.is_err() {
+                    return format!("walk:MISMATCH move={} next {}", k, res_string(self.xs(), &r));
+                }
+                pos += 1;
+            }
+            let d = dump_nometer(&self.xs().verif_dump(true));
+            if d != rec[pos] {
+                return format!("walk:MISMATCH move={} pos={} back={} expected={} got={}", k, pos, back, rec[pos], d);
+            }
+            fnv(&mut h, &d);
+        }
+        format!("walk:ok n={} failed={} hash={:016x}", n, failed, h)
+    }
+
+    /// C14: step to the end, tracking the largest stack / heap sizes and the meter
+    fn stepcheck(&mut self, maxsteps: usize) -> String {
+        let mut steps = 0usize;
+        let mut res = String::from("ok");
+        let depth = |d: &str, key: &str| -> usize {
+            // number of cells in a dump field
+            let a = d.find(key).unwrap() + key.len();
+            let b = d[a..].find(" ;").map(|x| a + x).unwrap_or(d.len());
+            d[a..b].split(' ').filter(|x| !x.is_empty()).count()
+        };
+        let d0 = self.xs().verif_dump(false);
+        let (mut maxds, mut maxheap) = (depth(&d0, " ; ds"), depth(&d0, " ; heap"));
+        while self.xs().is_running() && steps < maxsteps {
+            let r = self.xs().next();
+            steps += 1;
+            let d = self.xs().verif_dump(false);
+            maxds = maxds.max(depth(&d, " ; ds"));
+            maxheap = maxheap.max(depth(&d, " ; heap"));
+            if r.is_err() {
+                res = res_string(self.xs(), &r);
+                break;
+            }
+        }
+        format!("stepcheck:{} steps={} maxds={} maxheap={}", res, steps, maxds, maxheap)
     }
 }
 
